@@ -1,6 +1,6 @@
 #!/bin/bash
 # tools/confirm_seed.sh CNN : independently confirm a seeded change produced in /tmp/seed_CNN and file it under /verif/seeded/CNN
-P=$1; WT=/tmp/seed_$P; OUT=/verif/seeded/$P; LOG=/tmp/confirm_$P.log
+P=$1; WT=/tmp/seed_$P; OUT=/verif/seeded/$P; LOG=/tmp/confirm_$P.log   # P may be CNN or CNNx
 mkdir -p $OUT; cd $WT || exit 1
 {
 echo "== worktree diff vs patch.diff"; git diff -- luna > /tmp/confirm_$P.cur.diff; diff -q /tmp/confirm_$P.cur.diff seed_out/patch.diff && echo SAME
